@@ -43,13 +43,17 @@ theorem fold_def [Scalar α] (t : Tensor α) :
 theorem foldl_add_real (l : List ℝ) (a : ℝ) : l.foldl Scalar.add a = a + l.sum := by
   induction l generalizing a with
   | nil => simp
-  | cons x xs ih => simp [ih]; ring
+  | cons x xs ih =>
+    rw [List.foldl_cons, ih, List.sum_cons, add_eq, add_assoc]
 
 /-- **Sum / Avg / Mean over ℝ** -/
 theorem sum_real (t : Tensor ℝ) : t.sum = t.data.sum ∧ t.avg = t.data.sum / (prod t.dims : ℝ) ∧ t.mean = t.avg := by
-  refine ⟨?_, ?_, rfl⟩
-  · simp [Tensor.sum, Tensor.fold, foldl_add_real]
-  · simp [Tensor.avg, Tensor.sum, Tensor.fold, foldl_add_real, Tensor.numElems]
+  have hs : t.sum = t.data.sum := by
+    unfold Tensor.sum Tensor.fold
+    rw [foldl_add_real, zero_eq, zero_add]
+  refine ⟨hs, ?_, rfl⟩
+  unfold Tensor.avg
+  rw [hs, div_eq, ofNat_eq]; rfl
 
 /-- **Var over ℝ**: the unbiased sample variance, `0` for a single element -/
 theorem var_real (t : Tensor ℝ) :
